@@ -146,4 +146,71 @@ class ApiInnerRun(ApiInner):
                 "the compiled function runs exactly once on exactly the caller's tensors, in order")
 
 
-KERNELS = [ApiInnerRun(), ApiInnerGraph()]
+class ConstructGraph(Kernel):
+    id = "C04.P.construct_graph"
+    prop = "C04"
+    file = "einx/_src/frontend/api.py"
+    module = "einx._src.frontend.api"
+    qual = "_construct_graph"
+    describe = ("_construct_graph: the operation is traced once, on the given arguments, inside depend_on(all input tracers); the graph's inputs are exactly the tracer-valued arguments in order "
+                "(positional first, then keyword values); it is optimised with the selected backend's optimizations and compiled ONCE; the returned (function, code) are the two results of that "
+                "single compile call - the text handed out with graph=True belongs to the function that runs")
+
+    def setup(self, eng, bound=None):
+        self.desc = SObj(z3.Const("description", Obj))
+        self.tr = [SRec("Tracer", tag=SConc(i)) for i in range(2)]
+        for t in self.tr:
+            t.isa = ("Tracer", "tracer.Tracer")
+        self.kwt = SRec("Tracer", tag=SConc("kw"))
+        self.kwt.isa = ("Tracer", "tracer.Tracer")
+        self.size = SObj(z3.Const("axis_size", Obj))
+        self.backend = SRec("Backend", optimizations=SObj(z3.Const("optimizations", Obj)), compiler=SObj(z3.Const("compiler", Obj)), tag=SConc("backend"))
+        log = lambda name, result: SContract(lambda e, p, av, kw: (p.ghost.__setitem__(name, list(p.ghost.get(name, [])) + [(list(av), dict(kw), dict(in_with=p.ghost.get("in_with")))]), result(av, kw))[1], name)  # noqa
+        eng.contracts.update({"func": log("trace", lambda av, kw: SObj(z3.Const("output_tracer", Obj))),
+                              "tracer.depend_on": log("depend_on", lambda av, kw: SObj(z3.Const("cm", Obj))),
+                              "tracer.Graph": log("graph", lambda av, kw: SObj(z3.Const("graph", Obj))),
+                              "tracer.optimize": log("optimize", lambda av, kw: SObj(z3.Const("optimized_graph", Obj))),
+                              "backend.compiler.compile": log("compile", lambda av, kw: STup([SObj(z3.Const("compiled_function", Obj)), SObj(z3.Const("source_text", Obj))], "tuple"))})
+        pre = [z3.Not(uf("is_tracer.Tracer", Obj, B)(self.desc.t)), z3.Not(uf("is_tracer.Tracer", Obj, B)(self.size.t))]
+
+        def st_With(st, p):  # the body runs between __enter__ and __exit__ of the context manager (its effect is the callee's contract)
+            for item in st.items:
+                for _, p in eng.ev(item.context_expr, p):
+                    break
+            p.ghost["in_with"] = True
+            for out, q in eng.exec_block(st.body, [p]):
+                q.ghost["in_with"] = False
+                yield out, q
+
+        eng.st_With = st_With
+        return {"args": STup([self.desc] + self.tr, "list"), "kwargs": SDict({"a": self.size, "w": self.kwt, "backend": self.backend}), "backend": SConc(None), "func": eng.contracts["func"]}, pre, {}
+
+    def post(self, eng, out, p):
+        if isinstance(out, Raise):
+            eng.oblige("post:no exception of _construct_graph itself", p, z3.BoolVal(False), "post")
+            return
+        g = p.ghost
+        want_inputs = self.tr + [self.kwt]
+        tr, dep, gr, opt, comp = (g.get(k, []) for k in ("trace", "depend_on", "graph", "optimize", "compile"))
+        eng.oblige("post:each of depend_on, the traced operation, Graph, optimize and compile is called exactly once", p, z3.BoolVal(all(len(x) == 1 for x in (tr, dep, gr, opt, comp))), "post")
+        if not all(len(x) == 1 for x in (tr, dep, gr, opt, comp)):
+            return
+        eng.oblige("post:depend_on receives exactly the tracer-valued arguments (positional first, then keyword values), and the operation is traced inside it", p,
+                   z3.BoolVal(len(dep[0][0]) == 3 and all(a is b for a, b in zip(dep[0][0], want_inputs)) and tr[0][2]["in_with"] is True), "post")
+        a, k = tr[0][0], tr[0][1]
+        eng.oblige("post:the operation is traced on the given arguments and keywords, unchanged (the backend included)", p,
+                   z3.And(z3.BoolVal(len(a) == 3 and a[1] is self.tr[0] and a[2] is self.tr[1] and sorted(k) == ["a", "backend", "w"] and k["w"] is self.kwt and k["backend"] is self.backend), a[0].t == self.desc.t, k["a"].t == self.size.t)
+                   if len(a) == 3 and isinstance(a[0], SObj) and isinstance(k.get("a"), SObj) else z3.BoolVal(False), "post")
+        gk = gr[0][1]
+        ins = gk.get("inputs")
+        eng.oblige("post:the graph's inputs are those tracers, in that order, and its output is what the traced operation returned", p,
+                   z3.And(z3.BoolVal(isinstance(ins, STup) and len(ins.items) == 3 and all(x is y for x, y in zip(ins.items, want_inputs))), gk["output"].t == z3.Const("output_tracer", Obj)) if isinstance(gk.get("output"), SObj) else z3.BoolVal(False), "post")
+        eng.oblige("post:the graph is optimised with the optimizations of the selected backend", p, z3.And(opt[0][0][0].t == z3.Const("graph", Obj), opt[0][1]["optimizations"].t == z3.Const("optimizations", Obj))
+                   if len(opt[0][0]) == 1 and isinstance(opt[0][1].get("optimizations"), SObj) else z3.BoolVal(False), "post")
+        eng.oblige("post:the optimised graph is compiled with return_code=True", p, z3.And(comp[0][0][0].t == z3.Const("optimized_graph", Obj), eng.truth(comp[0][1]["return_code"])) if len(comp[0][0]) == 1 and "return_code" in comp[0][1] else z3.BoolVal(False), "post")
+        r = out.v
+        okr = isinstance(r, STup) and len(r.items) == 2 and all(isinstance(x, SObj) for x in r.items)
+        eng.oblige("post:the returned (function, code) are the two results of that one compile call", p, z3.And(r.items[0].t == z3.Const("compiled_function", Obj), r.items[1].t == z3.Const("source_text", Obj)) if okr else z3.BoolVal(False), "post")
+
+
+KERNELS = [ApiInnerRun(), ApiInnerGraph(), ConstructGraph()]
